@@ -237,6 +237,10 @@ class MetaSystem:
       for scope, ns, key, val in entries:
         want[(scope, ns, key)] = self._mval(val)
     self._last = outcomes[0]
+    for b in self.bs:
+      if b.pending_transaction():
+        vios.append(self._v('uncommitted-transaction-after-call', a, '[%s] the update was acknowledged but its SQL transaction is still open: it is not durable, and the next rollback undoes it' % b.kind))
+        b.settle()
     for i, b in enumerate(self.bs):
       got = self._read(i)
       failed = outcomes[i] != 'OK'
